@@ -158,9 +158,53 @@ func (e *engine) evalCases(cases []Case, model []string) {
 		}
 		for _, rt := range c.Routes {
 			e.countRoute(rt)
+			for _, n := range rt.ToDomSets {
+				e.countDomSet(c.domSetRules(n))
+			}
 		}
 		e.rep.Case(strings.Join(lines[spans[i].build-len(c.Routes):spans[i].req+len(c.Requests)], "\n"), nontrivial)
 		e.rep.Sample(map[string]any{"routes": c.Routes, "load": bres, "requests": len(c.Requests), "answers": answers})
+	}
+}
+
+// countDomSet: input distribution of the domain sets that routes reference.
+func (e *engine) countDomSet(rules []domRule) {
+	var sufs []string
+	ndom := 0
+	for _, r := range rules {
+		switch r.Kind {
+		case "suffix":
+			sufs = append(sufs, r.Val)
+		case "domain":
+			ndom++
+		case "keyword", "regexp":
+			e.rep.Count("domset:" + r.Kind)
+		}
+	}
+	narrowFirst, broadFirst := false, false
+	for i, a := range sufs {
+		for _, b := range sufs[i+1:] {
+			if strings.HasSuffix(a, "."+b) {
+				narrowFirst = true
+			}
+			if strings.HasSuffix(b, "."+a) {
+				broadFirst = true
+			}
+		}
+	}
+	if narrowFirst {
+		e.rep.Count("domset:narrow-suffix-before-broad")
+	}
+	if broadFirst {
+		e.rep.Count("domset:broad-suffix-before-narrow")
+	}
+	if len(sufs) > 4 {
+		e.rep.Count("domset:suffixes>4")
+	} else if len(sufs) > 0 {
+		e.rep.Count("domset:suffixes<=4")
+	}
+	if ndom > 16 {
+		e.rep.Count("domset:domains>16")
 	}
 }
 
@@ -264,7 +308,7 @@ func main() {
 	rep := common.NewReport("C09", o)
 	rep.Engines = []string{"router"}
 	rep.Rule = "engine router: random router.Config (0..6 routes; every criterion kind present/absent/inverted; port lists forcing single / <=16 ranges / bit set; " +
-		"toDomains lists around MaxLinearDomains; pool domain sets and prefix sets; 0..3 table resolvers answering / ErrLookup / no-address / other error) x requests at the " +
+		"toDomains lists around MaxLinearDomains; pool and per-case generated domain sets (suffix rules over a label vocabulary extending one another in both orders, duplicates, 4/5 suffixes, 16/17 domains, keyword + regexp rules, text and gob) and prefix sets (nested / overlapping / IPv4-mapped prefixes); 0..3 table resolvers answering / ErrLookup / no-address / other error) x requests at the " +
 		"boundaries (ports 0/1/65535 and every range edge +-1, IPv4-mapped addresses, domain vs IP targets, unknown users, tcp/udp); a case is non-trivial if the " +
 		"configuration loads and at least one request is not answered by the default route; distinct by (routes, requests)"
 	dir, err := os.MkdirTemp("", "c09-pool-")
